@@ -20,8 +20,10 @@ REGISTRY = {
     "C03": ("c03", ["Esp.Props.C03"]),
     "C04": ("c04", ["Esp.Props.C04"]),
     "C05": ("c05", ["Esp.Props.C05"]),
+    "C06": ("c06", ["Esp.Props.C06"]),
     "C07": ("c07", ["Esp.Props.C07"]),
     "C08": ("c08", ["Esp.Props.C08"]),
+    "C09": ("c09", ["Esp.Props.C09"]),
     "C10": ("c10", ["Esp.Props.C10"]),
     "C11": ("c11", ["Esp.Props.C11"]),
     "C12": ("c12", ["Esp.Props.C12"]),
